@@ -26,7 +26,7 @@ import (
 )
 
 type c24Upd struct {
-	API string `json:"api"` // export tuning policy
+	API string `json:"api"` // export tuning policy getmodify (GetExportOptions, edit the returned value in place, UpdateExportOptions)
 	// numeric selectors: index into c24Ints / c24Durs
 	TransferSize, AttrCacheSize, DirEntries, DirSize, Workers, MaxConn, SendBuf, RecvBuf int
 	AttrTTL, NegTTL, DirTTL, Idle                                                        int
@@ -51,7 +51,7 @@ func genC24(t *rapid.T) c24Case {
 	ii := func(l string) int { return rapid.IntRange(0, len(c24Ints)-1).Draw(t, l) }
 	dd := func(l string) int { return rapid.IntRange(0, len(c24Durs)-1).Draw(t, l) }
 	for i := 0; i < n; i++ {
-		u := c24Upd{API: pick(t, "api", "export", "export", "tuning", "policy"),
+		u := c24Upd{API: pick(t, "api", "export", "export", "tuning", "policy", "getmodify", "getmodify"),
 			TransferSize: ii("ts"), AttrCacheSize: ii("acs"), DirEntries: ii("de"), DirSize: ii("ds"), Workers: pick(t, "w", 0, 1, 2, 3), MaxConn: ii("mc"), SendBuf: ii("sb"), RecvBuf: ii("rb"),
 			AttrTTL: dd("attl"), NegTTL: dd("nttl"), DirTTL: dd("dttl"), Idle: dd("idle"), Timeouts: rapid.IntRange(0, 4).Draw(t, "to"),
 			ReadOnly: rapid.Bool().Draw(t, "ro"), DirCache: rapid.Bool().Draw(t, "dc"), NegCache: rapid.Bool().Draw(t, "nc"), RateLimit: rapid.Bool().Draw(t, "rl"),
@@ -147,6 +147,47 @@ func runC24(tb stat.TB, c c24Case) {
 					EnableDirCache: u.DirCache, DirCacheTimeout: c24Durs[u.DirTTL], DirCacheMaxEntries: c24Ints[u.DirEntries], DirCacheMaxDirSize: c24Ints[u.DirSize],
 					MaxWorkers: u.Workers, MaxConnections: c24Ints[u.MaxConn], IdleTimeout: c24Durs[u.Idle], SendBufferSize: c24Ints[u.SendBuf], ReceiveBufferSize: c24Ints[u.RecvBuf],
 					EnableRateLimiting: u.RateLimit, RateLimitConfig: rlc, Timeouts: u.timeouts()}
+				err = s.e.NFS.UpdateExportOptions(o)
+			case "getmodify":
+				o := s.e.NFS.GetExportOptions()
+				// edit what the returned value points to, in place
+				if nt := u.timeouts(); nt != nil && o.Timeouts != nil {
+					*o.Timeouts = *nt
+				} else {
+					o.Timeouts = nt
+				}
+				if o.RateLimitConfig != nil && rlc != nil {
+					*o.RateLimitConfig = *rlc
+				} else {
+					o.RateLimitConfig = rlc
+				}
+				if o.Log != nil {
+					o.Log.Level = "debug"
+				}
+				for k := range o.AllowedIPs {
+					o.AllowedIPs[k] = "203.0.113.9"
+				}
+				if d := c24Describe(s.e.NFS.GetExportOptions()); d != beforeDesc {
+					// The edited value shares storage with the live configuration. Complete
+					// the history the statement speaks about: an update that must be
+					// rejected (Squash change) has to leave the configuration as it was.
+					o.Squash = "all"
+					if before.Squash == "all" {
+						o.Squash = "root"
+					}
+					if rerr := s.e.NFS.UpdateExportOptions(o); rerr != nil {
+						if d2 := c24Describe(s.e.NFS.GetExportOptions()); d2 != beforeDesc {
+							if stat.Violate(tb, id, check, "rejected-update-changes-configuration", c, "%s: GetExportOptions, in-place edit of the returned value, then an update rejected with %v; the configuration changed:\n before %s\n after  %s", what, rerr, beforeDesc, d2) {
+								return
+							}
+						}
+					}
+					stat.Label("returned_options_share_storage_with_live_configuration", 1)
+					return
+				}
+				o.ReadOnly, o.Squash, o.MaxFileSize, o.TransferSize = u.ReadOnly, sq, int64(c24Ints[u.MaxFileSize]), c24Ints[u.TransferSize]
+				o.AttrCacheTimeout, o.AttrCacheSize, o.CacheNegativeLookups, o.NegativeCacheTimeout = c24Durs[u.AttrTTL], c24Ints[u.AttrCacheSize], u.NegCache, c24Durs[u.NegTTL]
+				o.EnableDirCache, o.MaxWorkers, o.EnableRateLimiting = u.DirCache, u.Workers, u.RateLimit
 				err = s.e.NFS.UpdateExportOptions(o)
 			case "tuning":
 				s.e.NFS.UpdateTuningOptions(func(t *absnfs.TuningOptions) {
